@@ -66,6 +66,11 @@ type ChainCfg struct {
 	Twin    bool    `json:"twin_route_other_representation,omitempty"`
 	RFT     []FSpec `json:"twin_route_filters,omitempty"`
 	Preempt int     `json:"preempt_permille"`
+	// Later (C06): the first route filter of the first service does not pass control on inside the call: it
+	// keeps the rest of the chain and the client runs it after the entry point has returned and after its
+	// next request was answered - a handler that outlives its request (what a handler abandoned by
+	// http.TimeoutHandler does). The chain of a request is its own until it ends, not until dispatch returns.
+	Later bool `json:"first_route_filter_continues_after_the_call_returned,omitempty"`
 	// Fill: a third service /fill with so many routes GET /r<i>/{id}, each with one route filter of its
 	// own: the API of a large application, where anything kept per route exists hundreds of times
 	Fill int `json:"filler_routes,omitempty"`
@@ -129,9 +134,10 @@ type ChainRes struct {
 	Panicked  bool
 	PanicVal  interface{}
 	cancel    func()
-	BeforeP   int // body bytes accepted by the client before the panic was raised
-	AppP      int // bytes the application had written when the panic was raised
-	StatusP   int // statuses written before the panic
+	later     func() // the rest of the chain, handed over by a "later" filter: run after the entry point returned
+	BeforeP   int    // body bytes accepted by the client before the panic was raised
+	AppP      int    // bytes the application had written when the panic was raised
+	StatusP   int    // statuses written before the panic
 }
 
 // current request / variant for callbacks: the running task's, or the sequential caller's.
@@ -249,6 +255,9 @@ func (r *ChainReq) panicText() string {
 	if r.PanicKind == 4 {
 		return "assignment to entry in nil map"
 	}
+	if r.PanicKind == 6 {
+		return fmt.Sprint(http.ErrAbortHandler)
+	}
 	return fmt.Sprintf("boom-%d@%s", r.ID, r.PanicAt)
 }
 
@@ -261,6 +270,10 @@ func (r *ChainReq) panicValue() interface{} {
 		return &chainPanicErr{text}
 	case 3:
 		return chainPanicVal{text}
+	case 6:
+		// net/http's sentinel for "abort this handler quietly": to the container it is a panic value like any
+		// other ("a panic ... is passed once to the recover handler")
+		return http.ErrAbortHandler
 	case 5:
 		return chainPanicBag{text: text, fields: map[string]string{"at": r.PanicAt}, trail: []string{text}}
 	}
@@ -350,6 +363,10 @@ func (e *chainEnv) filter(f FSpec) restful.FilterFunction {
 		switch f.Kind {
 		case "short":
 			e.ev("short:" + tag)
+			return
+		case "later":
+			e.ev("later:" + tag)
+			res.later = func() { next(req, resp) }
 			return
 		case "attr":
 			req.SetAttribute("a-"+tag, fmt.Sprintf("%s-%d", tag, r.ID))
@@ -826,6 +843,7 @@ func (cfg *ChainCfg) effectiveFilters(target string) []FSpec {
 func (cfg *ChainCfg) model(r *ChainReq) (events []string, points []string) {
 	fs := cfg.effectiveFilters(r.Target)
 	tgt := targetEvent(cfg, r.Target)
+	var tail []string         // what runs after the entry point returned (see the "later" filter kind)
 	var walk func(i int) bool // false: aborted by the injected panic
 	hit := func(p string) bool {
 		points = append(points, p)
@@ -861,6 +879,17 @@ func (cfg *ChainCfg) model(r *ChainReq) (events []string, points []string) {
 			events = append(events, "short:"+f.tag)
 			return true
 		}
+		if f.Kind == "later" {
+			// the filter returns at once (no post event of its own) and the filters before it finish; the
+			// rest of the chain runs later, complete
+			events = append(events, "later:"+f.tag)
+			saved := events
+			events = nil
+			ok := walk(i + 1)
+			tail = append(tail, events...)
+			events = saved
+			return ok
+		}
 		if !walk(i + 1) {
 			return false
 		}
@@ -871,6 +900,7 @@ func (cfg *ChainCfg) model(r *ChainReq) (events []string, points []string) {
 		return true
 	}
 	completed := walk(0)
+	events = append(events, tail...)
 	if !completed && cfg.Recover == 2 {
 		events = append(events, "recover")
 	}
@@ -897,6 +927,7 @@ type chainKnobs struct {
 	swapbuf      bool // filter kind swapbuf (buffering writer swapped into the Response)
 	addCE        bool // a share of the route functions add their own Content-Encoding value
 	cancels      int  // permille of non-panicking requests whose context is cancelled at some point
+	later        bool // allow the "later" route filter (C06)
 }
 
 func genFilters(tp *sim.Tape, k chainKnobs, max int) []FSpec {
@@ -999,6 +1030,14 @@ func genChainCfg(tp *sim.Tape, k chainKnobs) *ChainCfg {
 		cfg.RFT = append([]FSpec{}, cfg.RF...)
 		tagFilters(cfg.RFT, "x")
 	}
+	if k.later && !cfg.Twin && tp.Chance(60) {
+		cfg.Later = true
+		if len(cfg.RF) == 0 {
+			cfg.RF = []FSpec{{Kind: "pass"}}
+		}
+		cfg.RF = append([]FSpec{{Kind: "later"}}, cfg.RF...) // the other route filters run in the continuation
+		tagFilters(cfg.RF, "r")
+	}
 	return cfg
 }
 
@@ -1031,7 +1070,7 @@ func genChainReq(tp *sim.Tape, cfg *ChainCfg, k chainKnobs, id int) *ChainReq {
 	if k.encoding {
 		r.AE = chainAEs[tp.G(len(chainAEs))]
 		if tp.Chance(60) {
-			r.PreCE = []string{"br", "gzip"}[tp.G(2)]
+			r.PreCE = []string{"br", "gzip", "identity"}[tp.G(3)] // identity: a value too - "the writer already carried a Content-Encoding"
 		}
 	}
 	r.N = tp.G(k.maxPayload + 1)
@@ -1052,7 +1091,7 @@ func genChainReq(tp *sim.Tape, cfg *ChainCfg, k chainKnobs, id int) *ChainReq {
 		_, pts := cfg.model(r)
 		if len(pts) > 0 {
 			r.PanicAt = pts[tp.G(len(pts))]
-			r.PanicKind = tp.G(6)
+			r.PanicKind = tp.G(7)
 			r.PanicInRead = r.Target == "post" && r.PanicAt == "handler:before" && tp.Bool()
 		}
 	} else if k.cancels > 0 && tp.Chance(k.cancels) {
@@ -1074,6 +1113,10 @@ func genChainReq(tp *sim.Tape, cfg *ChainCfg, k chainKnobs, id int) *ChainReq {
 		r.AddCE = true
 	}
 	r.LongPath = r.Target == "route" && tp.Chance(25)
+	if cfg.Later && (r.Target == "route" || r.Target == "post") {
+		// the continuation runs outside every recover and after the writer is done: no faults in these requests
+		r.PanicAt, r.PanicKind, r.PanicInRead, r.CancelAt, r.WFail = "", 0, false, "", 0
+	}
 	if r.Early {
 		// a handler that closes the response writer itself is only meaningful if nothing is written afterwards
 		if r.PanicAt != "" {
@@ -1151,6 +1194,7 @@ func newChainRun(s *sim.Sim, cfg *ChainCfg, reqs []*ChainReq) *chainRun {
 			env.byID[wr.ID] = wr
 			seqReq, seqVariant = wr.ID, 0
 			cr.serve(nil, wr, 0)
+			cr.resume(nil, wr)
 			seqReq = 0
 			if want, _ := early.model(wr); !eventsEqual(wr.res[0].Events, want) {
 				s.Violate("filter-order", "warm-up request to %s with %d container and %d/%d service filters registered: events %v, the filter-order model gives %v", target, cfg.WarmCF, cfg.WarmSF, cfg.WarmSF2, wr.res[0].Events, want)
@@ -1235,6 +1279,23 @@ func (cr *chainRun) serve(t *sim.Task, r *ChainReq, variant int) {
 	}
 }
 
+// resume runs the rest of a chain that a "later" filter kept, on behalf of request r.
+func (cr *chainRun) resume(t *sim.Task, r *ChainReq) {
+	res := r.res[0]
+	if res == nil || res.later == nil {
+		return
+	}
+	f := res.later
+	res.later = nil
+	if t != nil {
+		t.Req = r.ID
+		t.Count("reach:chain-continued-after-the-call-returned")
+	} else {
+		seqReq = r.ID
+	}
+	f()
+}
+
 // age serves the scenario's aging requests sequentially on the live container, before any client starts.
 func (cr *chainRun) age(s *sim.Sim, sc *chainScen) {
 	aged := sc.agedReqs()
@@ -1242,9 +1303,17 @@ func (cr *chainRun) age(s *sim.Sim, sc *chainScen) {
 		return
 	}
 	seqVariant = 0
+	var prev *ChainReq
 	for _, r := range aged {
 		seqReq = r.ID
 		cr.serve(nil, r, 0)
+		if prev != nil {
+			cr.resume(nil, prev)
+		}
+		prev = r
+	}
+	if prev != nil {
+		cr.resume(nil, prev)
 	}
 	seqReq = 0
 	s.Counts["reach:aged-container"]++
